@@ -73,6 +73,19 @@ def wild_cases(ck, tier, seed, tmp):
             if rng.random() < 0.5:
                 passes.append({"kind": "sub", "maxloop": 3, "rules": [{"pre": 0, "ctx": [0], "con": b"", "act": bytes([31, 28, 3, 25, 25, 49])}]})
             passes.append({"kind": "pos", "maxloop": rng.choice([1, 2, 5]), "rules": [wild]})
+        # an earlier pass that attaches the second matched slot to the first, so that the wild rule (and the temporary
+        # copies the loader inserts for slots that are changed and read back) also meets slots that carry attachments
+        extra_cls = None
+        if rng.random() < 0.4:
+            extra_cls = ctx[1] if len(ctx) > 1 else rng.randrange(len(CLS))
+            akind = "sub" if (w["kind"] == "sub" or rng.random() < 0.5) else "pos"
+            attach = {"kind": akind, "maxloop": 2, "rules": [{"pre": 0, "ctx": [ctx[0], extra_cls], "con": b"",
+                                                              "act": bytes([25, 1, 255, 38, 2, 1, 20, 35, 3, 25, 49])}]}
+            at = 0
+            while at < len(passes) and passes[at]["kind"] == "sub" and akind == "pos":
+                at += 1
+            passes.insert(at if akind == "pos" else 0, attach)
+            passes.sort(key=lambda p_: 0 if p_["kind"] == "sub" else 1)
         rtl = rng.randrange(2)
         m = {"upem": 1000, "rtl": rtl, "nuser": 2,
              "glyphs": [{"adv": ADV[g], "attrs": ({5: GATTR[g]} if GATTR[g] else {})} for g in range(len(ADV))],
@@ -82,7 +95,7 @@ def wild_cases(ck, tier, seed, tmp):
         # steer the text towards the wild rule's context so that it fires
         if rng.random() < 0.8:
             at = rng.randrange(0, max(1, len(text)))
-            text[at:at + len(ctx)] = [rng.choice(CLS[c]) for c in ctx]
+            text[at:at + len(ctx)] = [rng.choice(CLS[c]) for c in ctx] + ([rng.choice(CLS[extra_cls])] if extra_cls is not None and len(ctx) == 1 else [])
         try:
             fb = gfont.build_font(m, silf_version=rng.choice([0x00020000, 0x00030000, 0x00040000]))
         except Exception as ex:
